@@ -54,8 +54,9 @@ theorem loaded_after_resolve (env : Env) (fuel : Nat) (root : NodeId) (base : Ur
 
 /-! ## Fuel is only a bound
 
-(The other half of `resolve_fuel_enough` — that the number of loader documents + 1 suffices — is not
-proved: it needs the termination arguments of checkStructure / resolveURIs / Schema.all over a tree.) -/
+(The other half of `resolve_fuel_enough` — that the number of loader table entries + 1 suffices — is
+`C10.resolve_no_fuel` in JSV/Props/C10.lean, with the termination arguments of checkStructure / resolveURIs
+over a tree in JSV/Proofs/ResNoFuel.lean.) -/
 
 /-- more fuel refines the outcome in the information order (`.fuel` below everything) -/
 theorem resolve_fuel_mono (env : Env) (f f' : Nat) (h : f ≤ f') (root : NodeId) (base : String) :
